@@ -373,4 +373,30 @@ def noUpgrade (s : Bytes) (rep : Bytes) : Bool :=
   (headB s != lH || l == cD) &&
   (headB s != lS || l != cK)
 
+/-! ### end to end: the class of the line the spawner relays, as a function of the server's replies
+
+qmail-rspawn starts qmail-remote with exactly one recipient and folds that recipient's report letter
+(`r`/`h`/`s`) with the message verdict (`K`/`Z`/`D`) into the one line it relays to qmail-send. What the
+property demands of that line is a function of what the *server* did (`expect`, over the reply codes):
+the (first) recipient refused with 4xx → `Z` (retry later — greylisting, 421, 452), refused with 5xx → `D`,
+accepted (or never offered: greeting/HELO/MAIL trouble, lost connection) → the class of the message
+verdict, a lost connection being temporary. Nothing here mentions `report()`'s variables. -/
+
+/-- the class letter of a message verdict; "connection died" is temporary -/
+def vLetter : Verdict → Byte
+  | .K => cK
+  | .Z => cZ
+  | .D => cD
+  | .lost _ => cZ
+
+/-- the class the relayed line must have, given what the rules say about the server's replies -/
+def relayClass (e : Exp) : Byte :=
+  match e.rl.head? with
+  | some c => if c = lS then cZ else if c = lH then cD else vLetter e.v
+  | none => vLetter e.v
+
+/-- **the relayed verdict is the documented one**: the first byte of the line `report()` relays for
+    qmail-remote's output is the class the rules give for the server's replies -/
+def relayAsReplied (e : Exp) (rep : Bytes) : Bool := headB rep == relayClass e
+
 end Nq.Spec.RemoteVerdict
